@@ -642,10 +642,9 @@ fn get_region_name_and_type_definition<'a>(
     type_path: &ItemPath,
     region: &Region,
 ) -> anyhow::Result<Option<(String, &'a TypeDefinition)>> {
-    let region_name = region
-        .name
-        .clone()
-        .expect("region had no name, this shouldn't be possible");
+    let Some(region_name) = region.name.clone() else {
+        anyhow::bail!("a base field of type `{type_path}` must have a name");
+    };
 
     let Type::Raw(path) = &region.type_ref else {
         anyhow::bail!(
